@@ -1,5 +1,6 @@
 """C07 — recursive schemas produce finitely sized types (structural clauses)."""
 import re
+from lib import alias_root  # noqa
 from lib import (Canon, walk, nodes, ends, src, psrc, outcome, contains_node, pat_top_variants, short, calls_in, block_last,
                  strip_refs, guards, gtext, templates_in, top_stmts)
 import tmplparse as tp
@@ -244,7 +245,7 @@ def run(facts, rep, tier):
         if part:
             for x, _ in walk(part[0]["args"][0]):
                 if x.get("k") == "mcall" and x["name"] == "contains":
-                    active = src(strip_refs(x["recv"]))
+                    active = alias_root(h, x["recv"])
         sets = set()
         stackv = None
         for n, _ in nodes(h["body"], "let"):
